@@ -101,12 +101,23 @@ func vh_C04_L1_simultaneous_open() {
 	b := vHandshakeEndpoint(ilB, zB)
 	a.initClient()
 	b.initClient()
-	dropAt := vPick(7) - 1 // one of the first six packets is lost, or none
+	dropAt := vPick(8) - 1 // one of the first six packets is lost, or none, or (6) every INIT ACK from b to a
+	allInitAcks := dropAt == 6
 	idx := 0
 	wire := func(x, y *Association) int {
 		n := 0
 		for _, raw := range vWriterWake(x) {
-			if idx != dropAt {
+			lost := idx == dropAt && !allInitAcks
+			if allInitAcks && x == b {
+				// a's INIT is never answered as far as a can see: it is established by b's COOKIE
+				// ECHO, which carries the cookie a handed out while waiting (RFC 9260 5.2.4)
+				if p := vDecode(raw); p != nil {
+					if _, isAck := p.chunks[0].(*chunkInitAck); isAck {
+						lost = true
+					}
+				}
+			}
+			if !lost {
 				vInbound(y, raw)
 			}
 			idx++
@@ -530,3 +541,7 @@ func vh_C04_L7_handshake_result_waits_for_the_connect_call() {
 	vassert(got == result, "the connect call returns what the handshake ended with")
 	vcover("end")
 }
+
+// C04.L8: what is negotiated is read from every parameter of the INIT / INIT ACK, whatever
+// parameters this implementation does not know stand in front of them (= C12.L4).
+func vh_C04_L8_negotiation_reads_past_unknown_parameters() { vh_C12_L4_init_unknown_parameter_is_skipped() }
